@@ -11,11 +11,11 @@ Open Scope string_scope.
 
 Theorem SRC_inventory_arena : inv_arena = [
   ("struct Arena", ["PartialEq"; "Eq"; "Clone"; "Debug"; "feature='deser'=>Deserialize"; "feature='deser'=>Serialize"]);
-  ("impl Arena < T >", ["new"; "with_capacity"; "capacity"; "reserve"; "get_node_id"; "get_node_id_at"; "new_node"; "count"; "is_empty"; "get"; "get_mut"; "iter"; "iter_mut"; "clear"; "as_slice"; "free_node"; "pop_front_free_node"]);
-  ("#[cfg(feature='par_iter')] impl Arena < T >", ["par_iter"]);
-  ("impl Default for Arena < T >", ["default"]);
-  ("impl Index for Arena < T >", ["type Output"; "index"]);
-  ("impl IndexMut for Arena < T >", ["index_mut"])
+  ("impl Arena < T >", ["new := { Self :: default () }"; "with_capacity := { Self { nodes : Vec :: with_capacity (n) , first_free_slot : None , last_free_slot : None , } }"; "capacity := { self . nodes . capacity () }"; "reserve := { self . nodes . reserve (additional) ; }"; "get_node_id"; "get_node_id_at"; "new_node"; "count"; "is_empty"; "get"; "get_mut := { self . nodes . get_mut (id . index0 ()) }"; "iter := { self . nodes . iter () }"; "iter_mut := { self . nodes . iter_mut () }"; "clear"; "as_slice := { self . nodes . as_slice () }"; "free_node"; "pop_front_free_node"]);
+  ("#[cfg(feature='par_iter')] impl Arena < T >", ["par_iter := { self . nodes . par_iter () }"]);
+  ("impl Default for Arena < T >", ["default := { Self { nodes : Vec :: new () , first_free_slot : None , last_free_slot : None , } }"]);
+  ("impl Index for Arena < T >", ["type Output"; "index := { & self . nodes [node . index0 ()] }"]);
+  ("impl IndexMut for Arena < T >", ["index_mut := { & mut self . nodes [node . index0 ()] }"])
 ].
 Proof. reflexivity. Qed.
 
